@@ -50,6 +50,8 @@ namespace igris
 
         void move_prev_than(dlist_node *node)
         {
+            if (node == this)
+                return;
             unlink();
             auto *old_prev = node->prev;
             node->prev = this;
@@ -60,6 +62,8 @@ namespace igris
 
         void move_next_than(dlist_node *node)
         {
+            if (node == this)
+                return;
             unlink();
             auto *old_next = node->next;
             node->next = this;
